@@ -1,7 +1,11 @@
 SPECIFICATION Spec
 CONSTANTS
-  Prod = {1, 2}
-  Cons = {3, 4}
+  p1 = p1
+  p2 = p2
+  c1 = c1
+  c2 = c2
+  Prod = {p1, p2}
+  Cons = {c1, c2}
   Cap = 2
   NSend = 2
   NRecv = 2
@@ -9,4 +13,5 @@ CONSTANTS
   PhotonSend = FALSE
   Timed = TRUE
   Bug = "none"
+SYMMETRY Sym
 INVARIANTS NotStuckNonEmpty NotStuckNonFull PendingMirrorsCount CountersSane Ledger
